@@ -77,6 +77,17 @@ pub fn gen_msg(r: &mut Rng, cfg: &GenCfg) -> Msg {
         options.push((n as u16, v));
         prev = n;
     }
+    if !options.iter().any(|o| o.0 == 12 || o.0 == 6) && r.chance(1, 4) {
+        // a Content-Format and/or Observe option with a value the typed setters can produce
+        if r.bool() {
+            let id = *r.pick(&[0usize, 40, 42, 50, 60, 110, 256, 432, 10000, 11542, 30000]);
+            options.push((12, crate::optval::min_be(id as u64)));
+        }
+        if r.bool() {
+            options.push((6, crate::optval::min_be(r.next_u64() >> r.range(32, 63))));
+        }
+        options.sort_by_key(|o| o.0);
+    }
     let plen = match r.below(8) {
         0 | 1 => 0,
         2 => 1,
@@ -153,6 +164,8 @@ enum Op {
     Add(usize),           // index into m.options
     Set(u16),             // set_option(number, full list)
     JunkAdd(u16, usize),  // add junk value of len
+    SetCf(usize),         // set_content_format(value of m.options[i]) - replaces whatever is there
+    SetObs(usize),        // set_observe_value(value of m.options[i])
     Clear(u16),
     ClearAll,
 }
@@ -241,6 +254,40 @@ pub fn build_packet(m: &Msg, r: &mut Rng) -> (Packet, String) {
             }
         }
     }
+    // typed setters: a single Content-Format / Observe value may also be stored through the
+    // convenience setter, which must replace whatever (junk) values the option holds at that time
+    {
+        use std::convert::TryFrom;
+        let mut out: Vec<Op> = Vec::with_capacity(ops.len() + 4);
+        for op in ops.into_iter() {
+            if let Op::Add(i) = op {
+                let (n, v) = &m.options[i];
+                let single = m.options.iter().filter(|o| o.0 == *n).count() == 1;
+                let minimal = v.first() != Some(&0);
+                if single && minimal && *n == 12 && v.len() <= 2 && r.bool() {
+                    let id = v.iter().fold(0usize, |a, b| a << 8 | *b as usize);
+                    if coap_lite::ContentFormat::try_from(id).is_ok() {
+                        for _ in 0..r.usize_below(3) {
+                            out.push(Op::JunkAdd(12, r.usize_below(3)));
+                        }
+                        out.push(Op::SetCf(i));
+                        continue;
+                    }
+                }
+                if single && minimal && *n == 6 && v.len() <= 4 && r.bool() {
+                    for _ in 0..r.usize_below(3) {
+                        out.push(Op::JunkAdd(6, r.usize_below(4)));
+                    }
+                    out.push(Op::SetObs(i));
+                    continue;
+                }
+                out.push(Op::Add(i));
+            } else {
+                out.push(op);
+            }
+        }
+        ops = out;
+    }
     // merge header steps at random positions
     let mut hdr = vec![Op::Ver, Op::Typ, if r.bool() { Op::CodeDirect } else { Op::CodeString }, Op::Mid, Op::Token, Op::Payload];
     r.shuffle(&mut hdr);
@@ -314,6 +361,17 @@ pub fn build_packet(m: &Msg, r: &mut Rng) -> (Packet, String) {
                 p.add_option(CoapOption::from(*n), vec![0xAB; *l]);
                 desc.push_str(&format!("junk{},", n));
             }
+            Op::SetCf(i) => {
+                use std::convert::TryFrom;
+                let id = m.options[*i].1.iter().fold(0usize, |a, b| a << 8 | *b as usize);
+                p.set_content_format(coap_lite::ContentFormat::try_from(id).expect("named content format"));
+                desc.push_str("set_content_format,");
+            }
+            Op::SetObs(i) => {
+                let v = m.options[*i].1.iter().fold(0u32, |a, b| a << 8 | *b as u32);
+                p.set_observe_value(v);
+                desc.push_str("set_observe_value,");
+            }
             Op::Clear(n) => {
                 p.clear_option(CoapOption::from(*n));
                 desc.push_str(&format!("clr{},", n));
@@ -349,6 +407,9 @@ pub fn run_c01(ctx: &mut Ctx) {
     }
     ctx.rep.floor("msgs_with_ext_delta_or_len", (ctx.budget / 10).min(50).max(1));
     ctx.rep.floor("decoded_equal", (ctx.budget / 2).max(1));
+    if ctx.budget >= 500 {
+        ctx.rep.floor("built_with_typed_setter_over_junk_values", 1);
+    }
 }
 
 fn directed_c01(i: usize) -> Msg {
@@ -423,6 +484,9 @@ fn c01_one(rep: &mut Report, m: &Msg, p: &Packet, order: &str, maxsz: usize, see
         return;
     }
     rep.count("encoded_equal_reference");
+    if order.contains("set_content_format") || order.contains("set_observe_value") {
+        rep.count("built_with_typed_setter_over_junk_values");
+    }
     // limited variants agree
     let w = reference.len();
     match guard(|| p.to_bytes_with_limit(w)) {
